@@ -31,6 +31,8 @@
 
 using ctl::Json;
 
+static long long g_execCount = 0; // executions so far (odd ones create non-deferred futures)
+
 struct Op {
   char op = 0; // s a w g b p
   int a = 0;
@@ -231,7 +233,14 @@ static void runOps(World* w, const std::vector<Op>& ops) {
       }
       case 'a': {
         int k = o.a;
-        w->futs[(size_t)k] = dispenso::Future<void>([w, k]() { taskBody(w, k); }, *w->pool);
+        // every other execution creates its futures without the deferred bit (kNotDeferred): Future::wait() / get()
+        // still run a not-yet-started future on the waiting thread (only the timed waits honour the bit), so the
+        // program has the same specification either way
+        if (g_execCount % 2)
+          w->futs[(size_t)k] = dispenso::Future<void>([w, k]() { taskBody(w, k); }, *w->pool, dispenso::kNotAsync,
+                                                      dispenso::kNotDeferred);
+        else
+          w->futs[(size_t)k] = dispenso::Future<void>([w, k]() { taskBody(w, k); }, *w->pool);
         break;
       }
       case 'w': {
@@ -301,6 +310,7 @@ static void project(World* w, Json& j) {
 
 static ctl::RunResult execute(const Program& prog, int pidx, int nw, int mult, ctl::RunOptions opts,
                               ctl::Trace& tr, const std::string& tag) {
+  ++g_execCount;
   World* w = new World();
   w->prog = &prog;
   size_t nt = prog.tasks.size();
